@@ -47,6 +47,27 @@ class Engine(StmtMixin, LoopMixin, CallMixin, Expr2Mixin, ExprMixin, EngineBase)
 
     def psum_fn(self, l: VList, field: Optional[str], elem_term=None):
         """Pf for the base arrays of l: Pf(0)=0, Pf(t+1)=Pf(t)+x[t] over absolute indices t >= 0"""
+        # the position list of an object (arrays = field functions applied to one reference): ONE function of (object, index) for all
+        # objects, so that the sum can be stated under a quantifier over objects
+        if l.arrs and all(z3.is_app(a) and a.num_args() == 1 and a.decl().kind() == z3.Z3_OP_UNINTERPRETED and a.arg(0).sort() == Ref
+                          and a.arg(0).eq(l.arrs[0].arg(0)) for a in l.arrs):
+            gkey = ('pf-field', tuple(a.decl().name() for a in l.arrs), field)
+            if gkey not in self._psums:
+                o, t = z3.Const(fresh_name('po'), Ref), z3.Int(fresh_name('pt'))
+                base = VList(l.elem, tuple(a.decl()(o) for a in l.arrs), z3.IntVal(0), l.n)
+                x = base.at(t)
+                xt = self.num(x) if field is None else elem_term(x)
+                srt = z3.IntSort() if z3.is_int(xt) else z3.RealSort()
+                G = z3.Function(f"Pf_{l.arrs[0].decl().name()}_{field or 'elem'}", Ref, z3.IntSort(), srt)
+                self.add_background(('pf', gkey), z3.And(
+                    z3.ForAll([o], G(o, 0) == 0, patterns=[G(o, 0)]),
+                    z3.ForAll([o, t], z3.Implies(t >= 0, G(o, t + 1) == G(o, t) + xt), patterns=[G(o, t + 1), z3.Select(l.arrs[0].decl()(o), t)])))
+                self._psums[gkey] = G
+                H = self._psum_hub(l, field, srt)
+                self.add_background(('pf-hub', gkey), z3.ForAll([o, t], G(o, t) == H(*[a.decl()(o) for a in l.arrs], t), patterns=[G(o, t)]))
+            G = self._psums[gkey]
+            owner = l.arrs[0].arg(0)
+            return lambda tt: G(owner, tt)
         key = (tuple(a.sexpr() for a in l.arrs), field)
         if key in self._psums:
             return self._psums[key]
@@ -65,8 +86,21 @@ class Engine(StmtMixin, LoopMixin, CallMixin, Expr2Mixin, ExprMixin, EngineBase)
         self.add_background(('pf', key), z3.And(Pf(0) == 0,
                                                  z3.ForAll([t], z3.Implies(t >= 0, Pf(t + 1) == Pf(t) + xt),
                                                            patterns=pats)))
+        if l.arrs:
+            H = self._psum_hub(l, field, srt)
+            self.add_background(('pf-hub', key), z3.ForAll([t], Pf(t) == H(*l.arrs, t), patterns=[Pf(t)]))
         self._psums[key] = Pf
         return Pf
+
+    def _psum_hub(self, l: VList, field, srt):
+        """prefix sums are a function of the ARRAY (and the index): every prefix-sum function is tied to one uninterpreted hub function of
+        (arrays, index), so that equal arrays have equal prefix sums (by congruence).  Conservative: the recurrences determine the values
+        for every index >= 0 (induction at the meta level, listed in the trusted base)"""
+        hk = ('pf-hubfn', field, tuple(str(a.sort()) for a in l.arrs), str(srt))
+        if hk not in self._psums:
+            self._psums[hk] = z3.Function(f"PfHub_{field or 'elem'}_{len(self._psums)}", *[a.sort() for a in l.arrs], z3.IntSort(), srt)
+            self.assumptions.add('prefix sums of equal arrays are equal (induction over the recurrence, applied at the meta level)')
+        return self._psums[hk]
 
     def psum(self, st, l: VList, elt, target, fid):
         """term for sum(elt for target in l)"""
@@ -132,6 +166,22 @@ class Engine(StmtMixin, LoopMixin, CallMixin, Expr2Mixin, ExprMixin, EngineBase)
         self._psums[key] = Cf
         return Cf
 
+    # ------------------------------------------------------------------ class invariants
+    def register_class_invariants(self):
+        """declared invariants of immutable classes (specs/schema.py: CLASS_INVARIANTS) become background axioms over every object of the
+        class: objects only come from constructors, and each invariant is an obligation of its class's __init__ (verified like any
+        function; the axioms are not used there)"""
+        invs = self.specs.get('@class_invariants') or {}
+        for cname, inv in invs.items():
+            o = z3.Const(fresh_name('ci_o'), Ref)
+            st = State()
+            st.frames[0] = Frame(None, None, None)
+            term = inv(self, view(self, st, VObj(o, (cname,))))
+            subs = [cname] + sorted(k for k in self.repo.class_index if k != cname and self.repo.is_subclass(k, cname))
+            guard = z3.Or(*[cls_of(o) == self.cls_id(c) for c in subs])
+            self.add_background(('class-inv', cname), z3.ForAll([o], z3.Implies(guard, term), patterns=[cls_of(o)]))
+            self.assumptions.add(f"class invariant of {cname} (obligation of {cname}.__init__)")
+
     # ------------------------------------------------------------------ terminals
     def terminal(self, st, flow):
         self.terminals.append((st, flow))
@@ -175,6 +225,8 @@ class Engine(StmtMixin, LoopMixin, CallMixin, Expr2Mixin, ExprMixin, EngineBase)
         self.top_frame = fid
         self.terminals = []
         self.register_axioms(spec)
+        if not spec.qualname.endswith('.__init__'):
+            self.register_class_invariants()
         # parameters
         a = fn.args
         pnames = [p.arg for p in a.posonlyargs + a.args + a.kwonlyargs]
@@ -253,6 +305,7 @@ class Engine(StmtMixin, LoopMixin, CallMixin, Expr2Mixin, ExprMixin, EngineBase)
             extra = {'F': self.local_ctx_for(s, fid)}
             Cx = Ctx(self, s, names, extra)
             object.__setattr__(Cx, '_entry_state', est)
+            object.__setattr__(Cx, 'proving', True)
             clauses = spec.ensures(Cx, view(self, s, res))
             for name, term in clauses:
                 self.check(s, term, f"ensures::{name}", 'postcondition')
